@@ -374,11 +374,22 @@ func (cs *Contracts) parseFile(path, pkg string) error {
 			name := rest
 			if assumed {
 				fs := strings.SplitN(rest, " ", 2)
-				if len(fs) != 2 || (fs[0] != "func" && fs[0] != "iface") {
-					return fmt.Errorf("%s:%d: expected 'assume func|iface <name>'", path, lineNo)
+				if len(fs) != 2 || (fs[0] != "func" && fs[0] != "iface" && fs[0] != "functype") {
+					return fmt.Errorf("%s:%d: expected 'assume func|iface|functype <name>'", path, lineNo)
 				}
 				iface = fs[0] == "iface"
 				name = strings.TrimSpace(fs[1])
+				if fs[0] == "functype" {
+					// calls through a value of a named func type
+					c := &Contract{Pkg: pkg, File: path, Line: lineNo, Props: append([]string(nil), props...), Assumed: true,
+						Loops: map[int]*LoopSpec{}, PureParams: map[string]bool{}, Event: true}
+					c.Key = "functype:" + name
+					c.Short = name
+					cs.Funcs[c.Key] = c
+					cs.Order = append(cs.Order, c.Key)
+					cur = c
+					continue
+				}
 			}
 			c := &Contract{Pkg: pkg, File: path, Line: lineNo, Props: append([]string(nil), props...), Assumed: assumed,
 				Loops: map[int]*LoopSpec{}, PureParams: map[string]bool{}, Iface: iface}
@@ -634,6 +645,16 @@ func (cs *Contracts) parseFile(path, pkg string) error {
 			}
 			curLemma = &Lemma{Name: m[1], Pkg: pkg, Props: append([]string(nil), props...), Params: ps}
 			pend = &pending{kind: "lemma", src: m[3], line: lineNo}
+		case "order":
+			// order <func>: "<A>" dominates "<B>"   every call of B in func is dominated by a call of A
+			if err := flush(); err != nil {
+				return err
+			}
+			om := regexp.MustCompile(`^(.+?):\s*"([^"]+)"\s+dominates\s+"([^"]+)"$`).FindStringSubmatch(rest)
+			if om == nil {
+				return fmt.Errorf("%s:%d: expected 'order <func>: \"A\" dominates \"B\"'", path, lineNo)
+			}
+			cs.Fields = append(cs.Fields, &FieldDecl{Type: strings.TrimSpace(om[1]), Field: om[2], Pkg: pkg, Kind: "order", Arg: om[3], Props: append([]string(nil), props...)})
 		case "promoted":
 			// promoted <T> via <field>: M1 M2 ...   every listed method of *T resolves to the embedded field's method
 			if err := flush(); err != nil {
